@@ -25,6 +25,7 @@ func main() {
 		scratch := fs.String("scratch", "", "scratch directory")
 		audit := fs.String("audit", "", "output of Audit.lean")
 		facts := fs.String("facts", "ok", "status of the generated facts check")
+		api := fs.String("api", "ok", "status of the in-process driver build")
 		evidence := fs.String("evidence", "", "evidence file to write")
 		verif := fs.String("verif", "/verif", "verif directory")
 		replay := fs.String("replay", "", "replay file: re-run only its recorded cases")
@@ -41,6 +42,7 @@ func main() {
 		if !ok {
 			die("unknown property %s", *prop)
 		}
+		ctx.APIStatus = *api
 		os.Exit(runCheck(ctx, ck, *audit, *facts, *evidence))
 	default:
 		fmt.Fprintln(os.Stderr, "unknown subcommand")
